@@ -4,6 +4,7 @@ import (
 	"context"
 	"errors"
 	"fmt"
+	"sort"
 	"sync"
 	"sync/atomic"
 	"testing"
@@ -230,6 +231,60 @@ func TestC17(t *testing.T) {
 			workers > 2)
 		cf.Count("conc_accepted", acc)
 		cf.Count("conc_callers", workers)
+	}
+
+	// Slow callbacks on the real clock: callers queue on the Invalidator's mutex behind an invalidation that
+	// takes longer than SkipInterval. Accepted invalidations (measured where the callbacks actually start)
+	// must still be spaced by SkipInterval, whenever the queued callers arrived.
+	nSlow := e.Pick(3, 20)
+
+	for i := 0; i < nSlow; i++ {
+		skip := time.Duration(160+e.Rng.Intn(80)) * time.Millisecond
+
+		var (
+			mu     sync.Mutex
+			starts []int64
+			first  = true
+		)
+
+		t0 := time.Now()
+		inv := &cache.Invalidator{SkipInterval: skip}
+		inv.Callbacks = append(inv.Callbacks, func(ctx context.Context) {
+			mu.Lock()
+			starts = append(starts, int64(time.Since(t0)))
+			slow := first
+			first = false
+			mu.Unlock()
+
+			if slow {
+				time.Sleep(skip * 5 / 2) // the first accepted invalidation takes 2.5 x SkipInterval
+			}
+		})
+
+		var wg sync.WaitGroup
+
+		call := func(after time.Duration) {
+			wg.Add(1)
+
+			go func() {
+				defer wg.Done()
+				time.Sleep(time.Until(t0.Add(after)))
+				_ = inv.Invalidate(context.Background())
+			}()
+		}
+
+		call(0)                     // A: accepted at 0, runs until 2.5 skip
+		call(skip * 5 / 4)          // C: arrives at 1.25 skip, queues, runs at 2.5 skip
+		call(skip*5/2 + skip*3/10)  // D: 2.8 skip: within SkipInterval of C's run
+		call(skip*5/2 + skip*6/10)  // E: 3.1 skip: still within
+		call(skip*5/2 + skip*13/10) // F: 3.8 skip: accepted again
+		wg.Wait()
+
+		sort.Slice(starts, func(a, b int) bool { return starts[a] < starts[b] })
+
+		term := fmt.Sprintf("C17Slow %s %s %s", Z(int64(skip)), Z(int64(skip)/8), ZList(starts))
+		cf.Add(term, "slow-callbacks", map[string]any{"kind": "slow", "skip_ns": int64(skip), "callback_starts_ns": starts,
+			"calls_at": "0, 1.25, 2.8, 3.1, 3.8 x SkipInterval; first callback sleeps 2.5 x SkipInterval"}, len(starts) >= 2)
 	}
 
 	if err := cf.Write(e); err != nil {
